@@ -177,8 +177,9 @@ class TokExec(NumExec):
 
     def ev_Subscript(s, p, e):
         base = s.ev(p, e.value)
-        if isinstance(base, PyL) and isinstance(e.slice, ast.Constant) and isinstance(e.slice.value, int):
-            k = e.slice.value
+        if isinstance(base, PyL) and (isinstance(e.slice, ast.Constant) and isinstance(e.slice.value, int) or
+                                     isinstance(e.slice, ast.UnaryOp) and isinstance(e.slice.op, ast.USub) and isinstance(e.slice.operand, ast.Constant)):
+            k = e.slice.value if isinstance(e.slice, ast.Constant) else -e.slice.operand.value
             if not (-len(base.items) <= k < len(base.items)):
                 s.safety.append((f"line{e.lineno}:index {k} within a list of {len(base.items)} elements", list(p.pc), z3.BoolVal(False)))
                 raise Unsupported("index out of range")
